@@ -23,12 +23,15 @@ Log(ev, idle) == h' = Append(h, [ev |-> ev, tyme |-> tyme, state |-> state', idl
 \* a complete NON persistent request (HTTP/1.1 with Connection: close) arrives: the application answers according to
 \* pattern q; the first element is served in the same service call
 Silent(q) == q \in {<<"stall">>, <<"blocked">>}    \* no traffic ever: nothing is written, or nothing of it leaves (the peer stopped reading)
-Answer(q, now) == IF Silent(q) THEN pat' = q /\ state' = "answering" /\ last' = now             \* request bytes were traffic
+\* <<"slow">>: pieces for ever to a peer that reads slowly: at every service the kernel takes a few bytes of what is queued,
+\* never all of it - bytes leaving are traffic, however few
+Answer(q, now) == IF Silent(q) \/ q = <<"slow">> THEN pat' = q /\ state' = "answering" /\ last' = now             \* request bytes were traffic
                   ELSE IF q = <<>> THEN pat' = <<>> /\ state' = "ended" /\ last' = now                \* empty body: head + end
                   ELSE pat' = Tail(q) /\ state' = "answering" /\ last' = now
 Stream(now, lst) == \* one service of a connection whose non persistent request is being answered
   IF now - lst >= T THEN state' = "closed" /\ last' = lst /\ UNCHANGED pat
   ELSE IF Silent(pat) THEN last' = lst /\ UNCHANGED <<state, pat>>
+  ELSE IF pat = <<"slow">> THEN last' = now /\ UNCHANGED <<state, pat>>
   ELSE IF pat = <<>> THEN state' = "ended" /\ last' = now /\ UNCHANGED pat                            \* the end of the body is written
   ELSE /\ pat' = Tail(pat) /\ UNCHANGED state /\ last' = (IF Head(pat) = "p" THEN now ELSE lst)
 \* one call of service() at the current tyme, `ev` is what happened since the previous call: what the client did, or
